@@ -336,6 +336,39 @@ int main(int argc, char **argv)
 		snprintf(in_name, sizeof in_name, "fibfreq:%d-symbols:%d%s", nsym, len, k & 1 ? ":with-runs" : "");
 		sweep(id, len, len > 8000, len > 8000 ? 1 : 0);
 	}
+	/* ADLEREDGE: text whose Adler-32 low word A (1 + byte sum mod 65521) is exactly 0, 1 or 65520 at the end of the input, or at the
+	 * end of the 6th 97-byte chunk: the zlib trailer must carry the RFC 1950 value at the wrap-around points of the modulus too
+	 * (the codec keeps A-1 internally and converts at every call boundary and in the trailer) */
+	{
+		static const int alens[] = { 257, 600, 4097 };
+		static const uint32_t atarget[] = { 65520, 0, 65519 }; /* byte sum mod 65521 -> A = 0, 1, 65520 */
+		for (int li = 0; li < 3; li++)
+			for (int ti = 0; ti < 3; ti++)
+				for (int pre = 0; pre < 2; pre++) {
+					int len = alens[li], upto = pre ? 582 : len;
+					if (pre && len != 600)
+						continue;
+					uint64_t id = unit++;
+					if (!v_mine(id))
+						continue;
+					fill_pattern(inbuf, len, PAT_TEXT, len + ti);
+					uint32_t S = 0;
+					for (int i = 0; i < upto; i++)
+						S += inbuf[i];
+					uint32_t delta = (atarget[ti] + 65521u * 64 - S) % 65521u;
+					for (int i = upto - 1; i >= 0 && delta; i--) {
+						uint32_t add = 255u - inbuf[i] < delta ? 255u - inbuf[i] : delta;
+						inbuf[i] += add;
+						delta -= add;
+					}
+					if (delta)
+						v_broken("adleredge: cannot reach the target sum");
+					snprintf(in_name, sizeof in_name, "adleredge:%d:A=%u-after-%d-bytes", len, (atarget[ti] + 1) % 65521u, upto);
+					sweep(id, len, 0, 0);
+					if (nfail > 40 || v_deadline_hit())
+						goto out;
+				}
+	}
 	/* FARMIX: back-to-back far matches of assorted lengths (widest encoded symbols); levels 1-3 matter, every CPU level */
 	for (int k = 0; k < (v_thorough ? 6 : 1); k++) {
 		uint64_t id = unit++;
